@@ -29,11 +29,10 @@ func sortNaturalFilter(array []any, key any) any {
 		sort.Sort(keySortable{result, func(m any) string {
 			// an element, and the property looked up in it, may be a drop
 			rv := reflect.ValueOf(values.ToLiquid(m))
-			kv := reflect.ValueOf(key)
-			if rv.Kind() != reflect.Map || !kv.Type().AssignableTo(rv.Type().Key()) || !kv.Comparable() {
+			if rv.Kind() != reflect.Map {
 				return ""
 			}
-			ev := rv.MapIndex(kv)
+			ev := values.MapEntry(rv, key)
 			if ev.IsValid() && ev.CanInterface() {
 				if s, ok := values.ToLiquid(ev.Interface()).(string); ok {
 					return strings.ToLower(s)
